@@ -47,6 +47,7 @@ func warmSibling(p, q *gen.Project) *gen.Project {
 	w.Weather.Days = q.Weather.Days
 	w.Soil.ID, w.PlotNr, w.PolyID, w.FieldID, w.Weather.FCode = p.Soil.ID, p.PlotNr, p.PolyID, p.FieldID, p.Weather.FCode
 	w.ExtraArgs = nil
+	w.AltParams = true // its own parameter folder with other tables: nothing of them may reach the run that follows
 	return &w
 }
 
